@@ -53,6 +53,10 @@ Registered == {"m_ok", "m_one", "m_perr", "m_exc"}
 \* middleware kinds
 RewrittenReq(r) == [r EXCEPT !.params = "a_1"]
 ShortResp(r) == IF r.id = "notif" THEN Nothing ELSE OkResp(r.id, "mw_short")
+\* a middleware that answers everything itself, a notification too (with id null): what the chain returns is what is sent
+ShortAllResp(r) == OkResp(IF r.id = "notif" THEN "null" ELSE r.id, "mw_short")
+IsShort(k) == k \in {"short", "shortall"}
+ShortOf(k, r) == IF k = "shortall" THEN ShortAllResp(r) ELSE ShortResp(r)
 RewriteResp(x) == IF x.k = "resp" /\ x.body = "result" THEN [x EXCEPT !.v = "mw_rewritten"] ELSE x
 
 \* error handlers: cfg.eh = [gen |-> Seq(kind), by |-> [code -> Seq(kind)]], kind \in {"identity", "replace"}
@@ -116,7 +120,7 @@ MwEnter(i) ==
     /\ Running(i) /\ elems[i].phase = "enter" /\ elems[i].depth < Len(cfg.mws)
     /\ LET e == elems[i]  k == e.depth + 1  mk == cfg.mws[k] IN
        /\ mwLog' = Append(mwLog, [dir |-> "enter", k |-> k, tag |-> e.tag, params |-> e.req.params])
-       /\ Upd(i, CASE mk = "short"      -> [e EXCEPT !.depth = k, !.phase = "exit", !.resp = ShortResp(e.req)]
+       /\ Upd(i, CASE IsShort(mk)       -> [e EXCEPT !.depth = k, !.phase = "exit", !.resp = ShortOf(mk, e.req)]
                    [] mk = "rewriteReq" -> [e EXCEPT !.depth = k, !.req = RewrittenReq(e.req)]
                    [] OTHER             -> [e EXCEPT !.depth = k])
     /\ UNCHANGED <<cfg, text, pc, cur, execLog, ehLog, reply, out>>
@@ -229,8 +233,8 @@ CodesAgree == Done /\ out # Nothing =>
 \* ---- expected outcome of ONE request message sent alone, as a function (property vocabulary)
 RECURSIVE FoldEh(_, _)
 FoldEh(q, e) == IF q = <<>> THEN e ELSE FoldEh(Tail(q), ApplyEh(Head(q).kind, e))
-FirstShort == IF \E k \in DOMAIN cfg.mws : cfg.mws[k] = "short"
-              THEN CHOOSE k \in DOMAIN cfg.mws : cfg.mws[k] = "short" /\ \A j \in 1..(k-1) : cfg.mws[j] # "short"
+FirstShort == IF \E k \in DOMAIN cfg.mws : IsShort(cfg.mws[k])
+              THEN CHOOSE k \in DOMAIN cfg.mws : IsShort(cfg.mws[k]) /\ \A j \in 1..(k-1) : ~IsShort(cfg.mws[j])
               ELSE 0
 Layers == IF FirstShort = 0 THEN Len(cfg.mws) ELSE FirstShort     \* middlewares that are entered
 SeenReq(m, k) == IF \E j \in 1..(k-1) : cfg.mws[j] = "rewriteReq" THEN RewrittenReq(m) ELSE m   \* request seen by layer k
@@ -243,7 +247,7 @@ RaisedBy(m) == LET r == CoreReq(m) IN
                ELSE NoErr
 Executes(m) == FirstShort = 0 /\ CoreReq(m).method \in Registered
                /\ BindResult(CoreReq(m).method, CoreReq(m).params) # "nobind"
-InnerResp(m) == IF FirstShort # 0 THEN ShortResp(SeenReq(m, FirstShort))
+InnerResp(m) == IF FirstShort # 0 THEN ShortOf(cfg.mws[FirstShort], SeenReq(m, FirstShort))
                 ELSE IF m.id = "notif" THEN Nothing
                 ELSE IF RaisedBy(m) = NoErr THEN OkResp(m.id, BindResult(CoreReq(m).method, CoreReq(m).params))
                 ELSE ErrResp(m.id, FoldEh(EhQueue(RaisedBy(m).code), RaisedBy(m)))
